@@ -104,6 +104,16 @@ Step(i, o) ==
     /\ olog' = LET base == IF Rise(i) THEN <<>> ELSE olog
                IN IF OBeat(o) THEN Append(base, [p |-> o.p, f |-> o.f, l |-> o.l]) ELSE base
 
+\* A reset of the detector's clock domain while the raw stream is quiet (valid low in this and the previous cycle; it
+\* may hit the flush window with outputs still owed): the outputs of the cycle are still judged, then everything owed
+\* is dropped and the detector must behave like a fresh one.
+ResetLegal(i) == ~i.v /\ ~in.v
+ResetStep(i, o) ==
+    /\ in' = i /\ out' = [o EXCEPT !.c = FALSE, !.x = FALSE, !.n = FALSE]      \* (the log of the packet is gone: keep no beat / strobe)
+    /\ bytes' = <<>> /\ nout' = 0 /\ ph' = "idle" /\ age' = Cap
+    /\ mustC' = FALSE /\ mayC' = FALSE /\ doneC' = FALSE /\ mustX' = FALSE /\ mayX' = FALSE /\ doneX' = FALSE
+    /\ olog' = <<>>
+
 NoIn  == [v |-> FALSE, n |-> FALSE, p |-> 0, c |-> FALSE, x |-> FALSE]
 NoOut == [v |-> FALSE, n |-> FALSE, p |-> 0, f |-> FALSE, l |-> FALSE, c |-> FALSE, x |-> FALSE]
 
